@@ -342,3 +342,173 @@ pub fn index_depth(n_blocks: usize, block_size: u32) -> usize {
     }
     levels
 }
+
+// ---------------------------------------------------------------------------------------------
+// zoom oracle (C07, C08, C09)
+
+#[derive(Clone, Debug, PartialEq)]
+pub struct ZRec {
+    pub chrom: u32,
+    pub start: u32,
+    pub end: u32,
+    pub valid: u64,
+    pub min: f64,
+    pub max: f64,
+    pub sum: f64,
+    pub sumsq: f64,
+}
+
+/// data of one chromosome as disjoint sorted positive-length runs (start, end, value) plus the
+/// values of zero-length items (position, value) which may or may not take part in min/max
+#[derive(Clone, Debug, Default)]
+pub struct ChromSignal {
+    pub id: u32,
+    pub name: String,
+    pub runs: Vec<(u32, u32, f64)>,
+    pub zero_len: Vec<(u32, f64)>,
+}
+
+pub fn bw_signal(c: &BwChrom, id: u32) -> ChromSignal {
+    ChromSignal {
+        id,
+        name: c.name.clone(),
+        runs: c.vals.iter().filter(|v| v.e > v.s).map(|v| (v.s, v.e, v.v as f64)).collect(),
+        zero_len: c.vals.iter().filter(|v| v.e == v.s).map(|v| (v.s, v.v as f64)).collect(),
+    }
+}
+
+pub fn bb_signal(c: &BbChrom, id: u32) -> ChromSignal {
+    ChromSignal {
+        id,
+        name: c.name.clone(),
+        runs: depth_runs(&c.entries).into_iter().map(|r| (r.0, r.1, r.2 as f64)).collect(),
+        zero_len: vec![],
+    }
+}
+
+fn run_stats(runs: &[(u32, u32, f64)], s: u32, e: u32) -> Stats {
+    let mut st = Stats::empty();
+    // binary search for the first run ending after s
+    let mut i = runs.partition_point(|r| r.1 <= s);
+    while i < runs.len() && runs[i].0 < e {
+        let cs = runs[i].0.max(s);
+        let ce = runs[i].1.min(e);
+        if cs < ce {
+            st.add((ce - cs) as u64, runs[i].2);
+        }
+        i += 1;
+    }
+    st
+}
+
+/// Check one zoom level against the signal. `exact` = statistics are small integers (bigBed
+/// depth): compare exactly after f32 narrowing; otherwise rule 4 tolerance.
+pub fn zoom_level_check(resolution: u32, recs: &[ZRec], signals: &[ChromSignal]) -> Result<(), String> {
+    // order + disjointness + length
+    for w in recs.windows(2) {
+        let (a, b) = (&w[0], &w[1]);
+        if (a.chrom, a.start) > (b.chrom, b.start) {
+            return Err(format!("records out of order: {:?} before {:?}", a, b));
+        }
+        if a.chrom == b.chrom && a.end > b.start {
+            return Err(format!("records overlap: {:?} and {:?}", a, b));
+        }
+    }
+    for r in recs {
+        if r.end < r.start {
+            return Err(format!("record with end < start: {:?}", r));
+        }
+        if r.end - r.start > resolution {
+            return Err(format!("record longer than the resolution {}: {:?}", resolution, r));
+        }
+    }
+    for sig in signals {
+        let rs: Vec<&ZRec> = recs.iter().filter(|r| r.chrom == sig.id).collect();
+        let total: u64 = sig.runs.iter().map(|r| (r.1 - r.0) as u64).sum();
+        let mut covered_by_records = 0u64;
+        for r in &rs {
+            let st = run_stats(&sig.runs, r.start, r.end);
+            covered_by_records += st.bases;
+            if r.valid != st.bases {
+                return Err(format!(
+                    "chromosome {:?}: record [{}, {}) reports {} covered bases, the data has {} in that span",
+                    sig.name, r.start, r.end, r.valid, st.bases
+                ));
+            }
+            if st.bases == 0 {
+                if r.sum != 0.0 || r.sumsq != 0.0 {
+                    return Err(format!(
+                        "chromosome {:?}: record [{}, {}) covers no data but has sum {} / sumsq {}",
+                        sig.name, r.start, r.end, r.sum, r.sumsq
+                    ));
+                }
+                continue;
+            }
+            // min / max: zero-length items touching [start,end] may take part
+            let zl: Vec<f64> = sig
+                .zero_len
+                .iter()
+                .filter(|z| z.0 >= r.start && z.0 <= r.end)
+                .map(|z| z.1)
+                .collect();
+            let min_ok = (r.min as f32) == (st.min as f32)
+                || zl.iter().any(|z| (*z as f32) == (r.min as f32) && *z < st.min);
+            let max_ok = (r.max as f32) == (st.max as f32)
+                || zl.iter().any(|z| (*z as f32) == (r.max as f32) && *z > st.max);
+            if !min_ok {
+                return Err(format!(
+                    "chromosome {:?}: record [{}, {}) min = {}, data in that span has min {}",
+                    sig.name, r.start, r.end, r.min, st.min
+                ));
+            }
+            if !max_ok {
+                return Err(format!(
+                    "chromosome {:?}: record [{}, {}) max = {}, data in that span has max {}",
+                    sig.name, r.start, r.end, r.max, st.max
+                ));
+            }
+            if !close_f32(r.sum, st.sum, st.abs_sum) {
+                return Err(format!(
+                    "chromosome {:?}: record [{}, {}) sum = {}, data in that span sums to {}",
+                    sig.name, r.start, r.end, r.sum, st.sum
+                ));
+            }
+            if !close_f32(r.sumsq, st.sumsq, st.abs_sumsq) {
+                return Err(format!(
+                    "chromosome {:?}: record [{}, {}) sum of squares = {}, data gives {}",
+                    sig.name, r.start, r.end, r.sumsq, st.sumsq
+                ));
+            }
+        }
+        if covered_by_records != total {
+            // find the first data base outside every record
+            let mut ri = 0;
+            for run in &sig.runs {
+                let mut p = run.0;
+                while p < run.1 {
+                    while ri < rs.len() && rs[ri].end <= p {
+                        ri += 1;
+                    }
+                    if ri >= rs.len() || rs[ri].start > p {
+                        return Err(format!(
+                            "chromosome {:?}: base {} has data but lies in no record of the {}-base level",
+                            sig.name, p, resolution
+                        ));
+                    }
+                    p = rs[ri].end.min(run.1);
+                }
+            }
+            return Err(format!(
+                "chromosome {:?}: records cover {} data bases, the data has {}",
+                sig.name, covered_by_records, total
+            ));
+        }
+    }
+    // records of unknown chromosomes
+    for r in recs {
+        if !signals.iter().any(|s| s.id == r.chrom) {
+            return Err(format!("record for chromosome id {} which has no data: {:?}", r.chrom, r));
+        }
+    }
+    Ok(())
+}
